@@ -5,7 +5,8 @@ import grid as G
 ASSUMPTIONS = ['the result UNIT as a type, the integer-division guard and as_raw_number\'s rejection rules are compile-time: the wrappers name the expected product unit in '
                '.in(...), so a wrong unit no longer compiles or rescales the value; rejections themselves are not decided',
                'sqrt / cbrt go to libm: trusted stubs (argument and result are pinned, the function itself is assumed)',
-               'floating-point division is compared bit for bit only in the thorough tier (divider equivalence is slow on every SAT back end)']
+               'floating-point *, / obligations are STRUCTURAL: the operator is an uninterpreted function on both sides (one application to exactly the stored values, for every meaning of the operator); '
+               'the restricted families (bounded, not counted) additionally compare against the concrete IEEE operator bit for bit']
 
 PRE = '#include "au/math.hh"\n#include "au/units/meters.hh"\n#include "au/units/seconds.hh"\n#include "au/units/feet.hh"'
 
@@ -29,22 +30,24 @@ def obligations(tier, seed):
   %s e2 = a * a; %s r2 = %s(a);
   CHECK(%s, "int_pow-2-is-raw-square");
 ''' % (ct, ct, w_mul.name, eq('r', 'e'), ct, ct, w_sq.name, eq('r2', 'e2'))
-            if False:   # two symbolic IEEE multipliers: undecided on every back end; the restricted families below stand in (bounded)
-              obs.append(Ob(id='C14.mul.%s' % rep, prop='C14', group='C14.%s' % rep, prelude=PRE, wrappers=[w_mul, w_sq], inputs=[(ct, 'a'), (ct, 'b')], body=body, fp=True,
-                          budget=1200, contract='forall bit patterns: (m(a) * s(b)).in(m*s) == a*b and int_pow<2>(m(a)).in(m^2) == a*a, bit for bit',
-                          functions_under_contract=('au::Quantity::operator*(Quantity)', 'au::int_pow', 'au::detail::int_pow_impl')))
+            # structural obligations over ALL bit patterns: the floating operator is an uninterpreted function on both sides (-DLL2C_UF_FP=1), so the
+            # claim "the library applies the raw operator to exactly the stored values, once" is decided without equating two IEEE multipliers / dividers
+            W_ = '32' if rep == 'f32' else '64'
             w_div = Wrapper('w_div_' + rep, ct, [(ct, 'a'), (ct, 'b')], 'return (%s / %s).in(au::UnitQuotientT<%s, %s>{});' % (qa, qb, M, S))
             w_raw = Wrapper('w_cancel_' + rep, ct, [(ct, 'a'), (ct, 'b')], '%s r = %s / %s; return r;' % (ct, qa, qm))
             w_inv = Wrapper('w_inv_' + rep, ct, [(ct, 'a')], 'return (%s{1} / %s).in(au::UnitInverseT<%s>{});' % (ct, qa, M))
-            if False:   # two symbolic IEEE dividers: undecided on every back end
-                body = '''
-  %s e = a / b;
-  CHECK(%s, "quantity-quotient-is-raw-quotient");
-  CHECK(%s, "same-unit-quotient-collapses-to-the-raw-number");
-''' % (ct, eq('%s(a, b)' % w_div.name, 'e'), eq('%s(a, b)' % w_raw.name, 'e'))
-                obs.append(Ob(id='C14.div.%s' % rep, prop='C14', group='C14.%s' % rep, prelude=PRE, wrappers=[w_div, w_raw], inputs=[(ct, 'a'), (ct, 'b')], body=body, fp=True,
-                              budget=900, contract='forall bit patterns: (m(a) / s(b)).in(m/s) == a/b; m(a) / m(b) is the raw number a/b',
-                              functions_under_contract=('au::Quantity::operator/(Quantity)', 'au::make_quantity_unless_unitless')))
+            body = '''
+  CHECK(%s(%s(a, b)) == %s(LL2C_FMUL%s(a, b)), "quantity-product-is-the-raw-product-of-the-stored-values");
+  CHECK(%s(%s(a, b)) == %s(LL2C_FDIV%s(a, b)), "quantity-quotient-is-the-raw-quotient-of-the-stored-values");
+  CHECK(%s(%s(a, b)) == %s(LL2C_FDIV%s(a, b)), "same-unit-quotient-collapses-to-the-raw-quotient");
+  CHECK(%s(%s(a)) == %s(LL2C_FDIV%s(%s, a)), "one-over-quantity-is-the-raw-quotient-1-over-value");
+''' % (bits, w_mul.name, bits, W_, bits, w_div.name, bits, W_, bits, w_raw.name, bits, W_, bits, w_inv.name, bits, W_, '1.0f' if rep == 'f32' else '1.0')
+            obs.append(Ob(id='C14.muldiv.%s' % rep, prop='C14', group='C14.%s' % rep, prelude=PRE, wrappers=[w_mul, w_div, w_raw, w_inv], inputs=[(ct, 'a'), (ct, 'b')], body=body, fp=True,
+                          budget=300, defs=('LL2C_UF_FP=1',),
+                          contract='forall bit patterns a, b (%s): (m(a) * s(b)).in(m*s) is a*b, (m(a) / s(b)).in(m/s) is a/b, m(a) / m(b) is the raw number a/b, (1 / m(a)).in(1/m) is 1/a: '
+                                   'one application of the raw operator to exactly the stored values, bit for bit (structural obligation: the operator is uninterpreted on both sides, '
+                                   'so the statement holds for every meaning of * and /, in particular IEEE-754)' % ct,
+                          functions_under_contract=('au::Quantity::operator*(Quantity)', 'au::Quantity::operator/(Quantity)', 'au::make_quantity_unless_unitless', 'au::operator/(T, Quantity)')))
             # int_pow with negative and positive exponents on a restricted family (x = n for 1 <= n <= 1000, exhaustively): 1 / (x*x...) in this order of operations
             wn2 = Wrapper('w_pown2_' + rep, ct, [(ct, 'a')], 'return au::int_pow<-2>(%s).in(au::UnitPowerT<%s, -2>{});' % (qa, M))
             wn3 = Wrapper('w_pown3_' + rep, ct, [(ct, 'a')], 'return au::int_pow<-3>(%s).in(au::UnitPowerT<%s, -3>{});' % (qa, M))
@@ -108,6 +111,12 @@ def obligations(tier, seed):
   %s r = w_cancelprod_%s(a, b);
   CHECK(vf_f64_bits(r) == vf_f64_bits(a * b), "cancelling-product-is-the-raw-product");
 ''' % (ct, rep)
+            body2 = '''
+  CHECK(vf_f64_bits(w_cancelprod_%s(a, b)) == vf_f64_bits(LL2C_FMUL64(a, b)), "cancelling-product-is-the-raw-product");
+''' % rep
+            obs.append(Ob(id='C14.cancel.%s' % rep, prop='C14', group='C14.cancel', prelude=PRE, wrappers=[wc1], inputs=[(ct, 'a'), (ct, 'b')], body=body2, fp=True, budget=300,
+                          defs=('LL2C_UF_FP=1',), contract='forall bit patterns: m(a) * (1/m)(b) collapses to the raw double a*b (structural: * uninterpreted on both sides)',
+                          functions_under_contract=('au::Quantity::operator*', 'au::make_quantity_unless_unitless')))
             obs.append(Ob(id='C14.cancel.family.%s' % rep, prop='C14', group='C14.cancel', prelude=PRE, wrappers=[wc1], inputs=[('uint8_t', 'n'), ('uint8_t', 'm')], body=body, fp=True, budget=300,
                           bounded=True,
                           contract='restricted family a = n/8 (n <= 200), b = m + 0.5 (m <= 64): m(a) * (1/m)(b) collapses to the raw double a*b bit for bit',
@@ -139,6 +148,12 @@ def obligations(tier, seed):
   double q = (double)m + 0.5;
   CHECK(vf_f64_bits(w_rawdiv_int_f64(x, q)) == vf_f64_bits((double)x / q), "int-over-double-quantity-divides-in-double");
 '''
+    body3 = '''
+  CHECK(vf_f64_bits(w_rawdiv_int_f64(x, q)) == vf_f64_bits(LL2C_FDIV64((double)x, q)), "int-over-double-quantity-divides-in-double");
+'''
+    obs.append(Ob(id='C14.rawdiv-mixed.int_f64', prop='C14', group='C14.rawdiv', prelude=PRE, wrappers=[w3], inputs=[('int32_t', 'x'), ('double', 'q')], body=body3, fp=True,
+                  defs=('LL2C_UF_FP=1',), contract='forall x:int32, q:double (every bit pattern): (x / unblock_int_div(seconds(q))).in(1/s) is (double)x / q (structural: / uninterpreted on both sides)',
+                  functions_under_contract=('au::operator/(T, AlwaysDivisibleQuantity)',)))
     obs.append(Ob(id='C14.rawdiv-mixed.family.int_f64', prop='C14', group='C14.rawdiv', prelude=PRE, wrappers=[w3], inputs=[('int32_t', 'x'), ('uint8_t', 'm')], body=body, fp=True,
                   bounded=True, contract='restricted family x in [0,127], q = m + 0.5 for m in [1,64]: (x / unblock_int_div(seconds(q))).in(1/s) == (double)x / q bit for bit',
                   functions_under_contract=('au::operator/(T, AlwaysDivisibleQuantity)',)))
